@@ -3,7 +3,7 @@
    Only statements here; every proof is [exact <lemma of Proofs/C17*.v>].
    find_child_and_pathstripped_message, add_resource, remove_resource, expand_upa are GENERATED from aiocoap/resource.py
    on every check (Gen/resource_site.v). *)
-From Verif Require Import Lib.Py Lib.Tactics Model.C17Base Gen.resource_site Model.C17 Proofs.C17 Proofs.C17Reg Proofs.C17Wkc Proofs.C17List.
+From Verif Require Import Lib.Py Lib.Tactics Model.C17Base Gen.resource_site Model.C17 Proofs.C17 Proofs.C17Reg Proofs.C17Wkc Proofs.C17List Proofs.C17R6 Proofs.C17R6b.
 Open Scope Z_scope.
 Open Scope list_scope.
 
@@ -204,6 +204,61 @@ Theorem C17_request_after_add_nested : forall root addr p id d root' pipe q,
   request pipe root' (new_request P None) q = RHandled id [] (Some P) (Ok (uri_segments P)).
 Proof. exact request_after_add_nested. Qed.
 Print Assumptions C17_request_after_add_nested.
+
+(* ---- 4b. (round 6) run level.  In EVERY history of add / remove / alias / request / locate / list / probe operations, from ANY tree, the
+        i-th answer can be an exception only as follows: KeyError for a remove (nothing registered there), NotFound for a request, BadOption
+        for a request through render_to_pipe (Uri-Path-Abbrev).  No OutOfFuel, IndexError, TypeError, AttributeError or any other internal
+        error of the model/translation is reachable; add, alias, locate, list and probe never answer with an exception. *)
+Theorem C17_histories_exception_per_operation : forall ops root, Forall2 (fun o r => forall e, r = RExn e ->
+    match o with
+    | ORemove _ _ => e = KeyError
+    | ORequest pipe _ _ => e = NotFound \/ (pipe = true /\ e = BadOption)
+    | _ => False
+    end) ops (snd (run root ops)).
+Proof. exact run_exn. Qed.
+Print Assumptions C17_histories_exception_per_operation.
+Theorem C17_histories_no_internal_error : forall ops root e, In (RExn e) (snd (run root ops)) -> e = KeyError \/ e = NotFound \/ e = BadOption.
+Proof. exact run_no_internal_error. Qed.
+Print Assumptions C17_histories_no_internal_error.
+(* removing a plain resource at ANY site address: the next request for its path is answered 4.04 (when nothing else shadows the path);
+   more generally nothing routable at path q of the addressed site means nothing routable at the corresponding request path of the tree *)
+Theorem C17_request_after_remove_nested : forall root addr p root' pipe q rs ss,
+  node_wf root = true -> step root (ORemove addr p) = (root', RDone) -> node_sep false root' = true ->
+  site_at addr root = Some (NSite rs ss) -> dict_get_opt ss p = None ->
+  (forall pre rest, p = pre ++ rest -> pre <> [] -> rest <> [] -> dict_get_opt ss pre = None) ->
+  (addr <> [] -> p <> [""%string]) ->
+  request pipe root' (new_request (addr_path addr p) None) q = RExn NotFound.
+Proof. exact request_after_remove_nested. Qed.
+Print Assumptions C17_request_after_remove_nested.
+Theorem C17_not_found_at_address : forall addr n nested rs ss q, node_wf n = true -> node_sep nested n = true ->
+  site_at addr n = Some (NSite rs ss) -> (addr <> [] -> q <> [""%string]) ->
+  (forall t, ~ Route (NSite rs ss) q t) -> forall t, ~ Route n (addr_path addr q) t.
+Proof. exact not_found_at_addr. Qed.
+Print Assumptions C17_not_found_at_address.
+Theorem C17_addr_path_is_chain_path : forall addr p, addr_path addr p = chain_path (addr ++ [p]).
+Proof. exact addr_path_chain. Qed.
+Print Assumptions C17_addr_path_is_chain_path.
+(* the nested-add theorem on every tree a history reaches: well-formedness is derived from reachability, not assumed *)
+Theorem C17_request_after_add_nested_reachable : forall ops addr p id d root' pipe q,
+  step (fst (run (NSite [] []) ops)) (OAdd addr p (TRes (RHandler id d))) = (root', RDone) -> node_sep false root' = true ->
+  let P := chain_path (addr ++ [p]) in
+  request pipe root' (new_request P None) q = RHandled id [] (Some P) (Ok (uri_segments P)).
+Proof. exact request_after_add_nested_reachable. Qed.
+Print Assumptions C17_request_after_add_nested_reachable.
+Theorem C17_listed_is_routable_in_histories : forall ops ls h d, let n := fst (run (NSite [] []) ops) in
+  node_sep false n = true -> get_resources_as_linkheader n = Some ls -> In (h, d) ls ->
+  exists ch r, In (ch, r) (entries n) /\ get_link_description r = Some d /\ h = href_of_path (chain_path ch) /\
+               Route n (chain_path ch) (TgtRes r).
+Proof. exact listed_routable_reachable. Qed.
+Print Assumptions C17_listed_is_routable_in_histories.
+Example C17_remove_nested_nonvacuous :
+  let root := NSite [] [(["a"%string], NSite [(["x"%string], RHandler 1 (Some [])); ([], RHandler 2 (Some []))] [(["b"%string], NSite [(["y"%string], RHandler 3 None)] [])])] in
+  snd (run root [ORequest false (new_request ["a"; "b"; "y"]%string None) []; ORemove [["a"]; ["b"]]%string ["y"%string];
+                 ORequest true (new_request (addr_path [["a"]; ["b"]]%string ["y"%string]) None) []; ORemove [["a"%string]] [];
+                 ORequest false (new_request (addr_path [["a"%string]] []) None) []; ORemove [["a"%string]] []])
+  = [RHandled 3 [] (Some ["a"; "b"; "y"]%string) (Ok ["a"; "b"; "y"]%string); RDone; RExn NotFound; RDone; RExn NotFound; RExn KeyError]
+  /\ node_wf root = true /\ node_sep false root = true.
+Proof. vm_compute. repeat split. Qed.
 
 (* ---- 5. the listing names exactly the registered resources that do not hide themselves, with full hrefs through nested sites *)
 Theorem C17_listing_exact : forall n ls, get_resources_as_linkheader n = Some ls ->
